@@ -448,7 +448,7 @@ def correspondence(ctx):
     cfg = detect_cfg(ctx)
     _names_stream(ctx, out)
     rng = ctx.subrng("corr")
-    n_hist = ctx.budget(450, 9000)
+    n_hist = ctx.budget(300, 9000)
     for kind in ("dir", "sql"):
         hist = []
         for i in range(n_hist if kind == "dir" else n_hist // 2):
@@ -631,7 +631,7 @@ def _classify(kind, sfx, op, res, before, exp, got, oracle_before):
                 # a record of ANOTHER identifier disappeared
                 key = (uid.replace(f".{sfx}", "") + ".json") if kind == "dir" else uid
                 if all(x.endswith(key) for x in lost):
-                    parts.append("nc-other-removed:suffix-match")
+                    parts.append("nc-other-removed-suffix-match")
                 else:
                     parts.append("nc-other-removed")
             else:
@@ -675,10 +675,11 @@ def _classify(kind, sfx, op, res, before, exp, got, oracle_before):
         o = oracle_before
         if o.cname(uid) in o.c:
             feats.append("completed-exists")
-    feats.append("mode-" + oracle_before.mode)
+    if oracle_before.mode == "r" and k in ("w", "nc", "log", "drop"):
+        parts = ["readonly-mutated"]
     if isinstance(res, dict):
         feats.append("raised-" + res["err"])
-    if ic:
+    if ic and kind == "dir":
         feats.append("id:" + ic)
     return f"{kind}:{k}:{'+'.join(parts)}:{','.join(feats)}"
 
@@ -739,9 +740,6 @@ def check_history(ctx, kind, sfx, mode, ops, tag="h", stop_at_first=True):
             if got != exp:
                 op0 = last_op or ["obs"]
                 sig = _classify(kind, sfx, op0, last_res, prev, exp, got, last_before)
-                ro = last_before.mode == "r" and op0[0] in ("w", "nc", "log", "drop")
-                if ro:
-                    sig = f"{kind}:{op0[0]}:readonly-mutated:" + sig.split(":", 3)[3]
                 return dict(
                     what=f"after {op0} the store differs from the dictionary model",
                     input=dict(store=kind, sfx=sfx, mode=mode, ops=ops[: i + 1]), expected=exp, got=got, sig=sig), stats
@@ -773,9 +771,9 @@ def _with_obs(ops):
 def _shrink(ctx, kind, sfx, mode, ops, sig):
     """greedy removal of operations keeping the same signature"""
     cur = [op for op in ops if op[0] != "obs"]
-    changed = True
+    changed = len(cur) > 3
     n = 0
-    while changed and n < 200:
+    while changed and n < 60:
         changed = False
         for i in range(len(cur) - 1, -1, -1):
             cand = cur[:i] + cur[i + 1 :]
@@ -806,7 +804,7 @@ def spec_check(ctx, budget):
     atoms = [["w", i] for i in ids] + [["nc", i] for i in ids] + [["drop", i] for i in ["a", "ba", ""]]
     for n in (1, 2, 3):
         for tup in itertools.product(atoms, repeat=n):
-            if n == 3 and budget < 8 and rng.random() < 0.6:
+            if n == 3 and budget < 8 and rng.random() < 0.8:
                 continue
             for mode in ("w", "a"):
                 ops = [[*a, f"d{j}"] if a[0] != "drop" else list(a) for j, a in enumerate(tup)]
@@ -814,7 +812,7 @@ def spec_check(ctx, budget):
                 if n <= 2 or rng.random() < 0.3:
                     cases.append(("sql", "fasta", mode, ops))
     small_n = len(cases)
-    for i in range(220 * budget):
+    for i in range(130 * budget):
         kind = "dir" if rng.random() < 0.65 else "sql"
         sfx = rng.choice(SFXS) if kind == "dir" else "fasta"
         pool = prop_ids(sfx) + (spec_odd_ids(sfx) if rng.random() < 0.25 else [])
@@ -853,16 +851,35 @@ def spec_check(ctx, budget):
 # --------------------------------------------------------------------------
 # findings
 # --------------------------------------------------------------------------
-def match_finding(f, k):
-    sig = f.get("sig") or ""
-    ok = sig in k.get("sigs", []) or any(re.fullmatch(p, sig) for p in k.get("sig_patterns", []))
-    if not ok:
-        return False
+def sig_atoms(sig):
+    """'store:op:p1+p2:feats' -> ['store:op:p1:feats', 'store:op:p2:feats']"""
+    try:
+        store, op, parts, feats = sig.split(":", 3)
+    except ValueError:
+        return [sig]
+    return [f"{store}:{op}:{p}:{feats}" for p in parts.split("+")]
+
+
+def _explains(k, atom, inp):
     r = k.get("restrict") or {}
-    inp = f.get("input") or {}
     if r.get("store") and inp.get("store") != r["store"]:
         return False
-    return True
+    if r.get("sfx") and inp.get("sfx") not in r["sfx"]:
+        return False
+    return atom in k.get("sigs", []) or any(re.fullmatch(p, atom) for p in k.get("sig_patterns", []))
+
+
+def match_finding(f, k):
+    """a failure is explained by finding k iff one of its atoms (store:op:difference:features) matches k and every
+    other atom matches some listed finding -- an unexplained difference keeps the failure unlisted"""
+    from .common import load_known
+
+    atoms = sig_atoms(f.get("sig") or "")
+    inp = f.get("input") or {}
+    if not any(_explains(k, a, inp) for a in atoms):
+        return False
+    known = load_known(PROP)
+    return all(any(_explains(k2, a, inp) for k2 in known) for a in atoms)
 
 
 def check_witness(ctx, w):
